@@ -19,7 +19,13 @@ import (
 // C11: reconnection liveness and retry pacing after non-damping faults, over
 // all fault histories up to a length, in virtual time.
 
-var c11Faults = []string{"refuse", "stall", "fin@0", "fin@1", "fin@2", "rst@0", "rst@1", "rst@2", "cease@0", "cease@1", "cease@2", "inbound-fin", "rst@9", "fin@9"}
+var c11Faults = []string{"refuse", "stall", "fin@0", "fin@1", "fin@2", "rst@0", "rst@1", "rst@2", "cease@0", "cease@1", "cease@2", "inbound-fin", "rst@9", "fin@9",
+	// beyond the alphabet of the history enumeration (c11Alphabet symbols): a Cease with every subcode
+	"cease.0@2", "cease.1@2", "cease.2@2", "cease.3@2", "cease.5@2", "cease.6@2", "cease.7@2", "cease.8@2", "cease.9@2", "cease.10@2", "cease.255@2",
+	"cease.0@0", "cease.1@0", "cease.8@0", "cease.1@1", "cease.8@1", "cease.255@1"}
+
+// c11Alphabet: the faults the histories are enumerated over.
+const c11Alphabet = 14
 
 type c11Case struct {
 	History  []int `json:"history"` // indices into c11Faults
@@ -69,6 +75,13 @@ func c11Apply(w *world.World, r *world.Remote, f string, o *c11Obs) {
 		r.C.Reset()
 	case "cease":
 		r.Send(wire.Notification(6, 4, nil))
+		r.Deadline(2 * time.Second)
+		r.Drain()
+	default:
+		// "cease.<subcode>"
+		sub := 4
+		fmt.Sscanf(kind, "cease.%d", &sub)
+		r.Send(wire.Notification(6, byte(sub), nil))
 		r.Deadline(2 * time.Second)
 		r.Drain()
 	}
@@ -356,7 +369,7 @@ func c11Histories(maxLen int) [][]int {
 	for d := 0; d < maxLen; d++ {
 		var next [][]int
 		for _, f := range frontier {
-			for a := range c11Faults {
+			for a := 0; a < c11Alphabet; a++ {
 				next = append(next, append(append([]int{}, f...), a))
 			}
 		}
@@ -411,6 +424,27 @@ func c11Check(c *harness.Ctx) {
 					}
 					c11Eval(c, cs)
 				}
+			}
+		}
+	}
+	// a received Cease never stops the peer from trying, whatever its subcode: alone, twice, and after a refusal
+	for a := c11Alphabet; a < len(c11Faults); a++ {
+		for _, h := range [][]int{{a}, {a, a}, {0, a}} {
+			for _, passive := range []bool{false, true} {
+				idx++
+				if !c.Mine(idx) {
+					continue
+				}
+				if c.Expired() {
+					return
+				}
+				if passive && h[0] == 0 {
+					continue
+				}
+				cs := c11Case{History: h, IdleHold: 1, Retry: 3, Passive: passive, Legacy: idx%2 == 0}
+				b, _ := json.Marshal(cs)
+				c.Eval(b, true)
+				c11Eval(c, cs)
 			}
 		}
 	}
